@@ -164,8 +164,36 @@ pub fn parallel_conflict(dm: Dm) -> (Doc, Vec<Vec<String>>) {
 }
 
 pub fn all(dm: Dm) -> Vec<(Doc, Vec<Vec<String>>)> {
-    vec![parallel_done(dm), histories(dm), parallel_conflict(dm)]
+    vec![parallel_done(dm), histories(dm), parallel_conflict(dm), prefix_names(dm)]
 }
+/// state ids that are string prefixes of one another (`a` / `ab`), asked for by `In()` guards in a sibling region:
+/// `In('a')` must be false while only `ab` is active, and the other way round
+pub fn prefix_names(dm: Dm) -> (Doc, Vec<Vec<String>>) {
+    let mut a = st("a", Kind::State, dm);
+    a.trans.push(tr("a.0", "e1", &["ab"], dm));
+    let mut ab = st("ab", Kind::State, dm);
+    ab.trans.push(tr("ab.0", "e1", &["a"], dm));
+    let mut r = st("r", Kind::State, dm);
+    r.children = vec![a, ab];
+    let mut w = st("w", Kind::State, dm);
+    w.trans.push(Trans { cond: Cond::In("a".into()), ..tr("w.0", "e2", &[], dm) });
+    w.trans.push(Trans { cond: Cond::In("ab".into()), ..tr("w.1", "e2", &[], dm) });
+    // (the null data model knows the In() predicate only: no operators there)
+    let c2 = if dm == Dm::Null { Cond::In("ab".into()) } else { Cond::And(Box::new(Cond::Not(Box::new(Cond::In("a".into())))), Box::new(Cond::In("r".into()))) };
+    w.trans.push(Trans { cond: c2, ..tr("w.2", "e3", &["w2"], dm) });
+    let mut w2 = st("w2", Kind::State, dm);
+    let c3 = if dm == Dm::Null { Cond::In("a".into()) } else { Cond::Not(Box::new(Cond::In("ab".into()))) };
+    w2.trans.push(Trans { cond: c3, ..tr("w2.0", "e3", &["w"], dm) });
+    let mut q = st("q", Kind::State, dm);
+    q.children = vec![w, w2];
+    let mut par = st("pp", Kind::Parallel, dm);
+    par.children = vec![r, q];
+    (
+        doc("core-prefix-names", dm, vec![par]),
+        vec![p(&["e2", "e1", "e2", "e3", "e3", "e1", "e3", "e2"]), p(&["e3", "e1", "e3", "e1", "e2", "e3"]), p(&["e1", "e2", "e1", "e2"])],
+    )
+}
+
 
 /// Random tree of nested parallels whose leaf regions reach a final child on their own event:
 /// regions are compound leaves, nested parallels, or compound states wrapping a parallel.
